@@ -11,7 +11,7 @@ import pmlib
 CMD_PROPS = {
     "site": ["C20"], "term": ["C20"], "preset": ["C20", "C04"], "tpreset": ["C20"], "getsite": ["C20"], "copy": ["C20"],
     "dumplattice": ["C20", "C04"], "tpc": ["C13"], "index": ["C18"], "getindex": ["C18"], "getinfo": ["C18"],
-    "ham": ["C04"], "symm": ["C07"], "states": ["C07"], "blockof": ["C07", "C17"], "innerof": ["C07", "C17"],
+    "ham": ["C04"], "hshift": ["C04", "C03", "C09"], "symm": ["C07"], "states": ["C07"], "blockof": ["C07", "C17"], "innerof": ["C07", "C17"],
     "hprepare": ["C04", "C03"],
 }
 
@@ -110,7 +110,7 @@ def rand_amp(r, cplx):
 
 
 def add_random_terms(r, m, cplx=False, allow=("hop", "level", "coulombS", "coulombP", "szsz", "ss", "magnetization",
-                                               "user2", "user4", "pair", "spinflip_hop")):
+                                               "user2", "user4", "pair", "spinflip_hop", "user6")):
     """append preset calls / user terms (with Hermitian conjugates) to the model"""
     sites = m.sites
     nops = r.range(1, 5)
@@ -171,6 +171,23 @@ def add_random_terms(r, m, cplx=False, allow=("hop", "level", "coulombS", "coulo
             if f1 != f2:
                 add_user_term(m, t, [(1,) + f1, (1,) + f2])
                 m.kinds.add("pair")
+        elif kind == "user6":
+            # three-body terms: a product of number operators, or a generic 6-operator product (+ h.c.)
+            t = rand_amp(r, cplx)
+            modes = [(l, o, z) for l, no, ns in sites for o in range(no) for z in range(ns)]
+            if r.chance(1, 2) and len(modes) >= 3:
+                r.shuffle(modes)
+                trio = modes[:3]
+                add_user_term(m, t.real if isinstance(t, complex) else t,
+                              [(1,) + f for f in trio] + [(0,) + f for f in reversed(trio)])
+            else:
+                fs = []
+                for cre in (1, 1, 1, 0, 0, 0):
+                    s = r.choice(sites)
+                    fs.append((cre, s[0], r.below(s[1]), r.below(s[2])))
+                add_user_term(m, t, fs)
+            m.quadratic = False
+            m.kinds.add("user6")
         elif kind == "user4":
             t = rand_amp(r, cplx)
             fs = []
@@ -215,12 +232,21 @@ def custom_integrals(r, m):
         l0 = r.choice(m.sites)[0]
         ii = [i for i, (l, o, s) in enumerate(idx) if l == l0]
         polys.append("%d %s" % (len(ii), " ".join("%s 2 0 %d 1 %d" % (val(1.0), i, i) for i in ii)))
-    # weighted linear combination
+    # weighted linear combination (also with weights that are not multiples of 1/2)
     if r.chance(1, 2):
-        polys.append("%d %s" % (M, " ".join("%s 2 0 %d 1 %d" % (val(r.choice([1.0, 2.0, -1.0, 0.5])), i, i) for i in range(M))))
-    # non-linear diagonal (must be rejected since the fix) and non-diagonal candidates
+        polys.append("%d %s" % (M, " ".join("%s 2 0 %d 1 %d" % (val(r.choice([1.0, 2.0, -1.0, 0.5, 0.25, 0.75, 0.125])), i, i)
+                                            for i in range(M))))
+    # site-weighted charge sum_s x_s N_s with quarter-step weights (conserved whenever no term moves particles between sites)
+    if r.chance(1, 2) and len(m.sites) > 1:
+        ws = {l: r.choice([0.0, 0.25, 0.5, 0.75, 1.0, 1.25]) for l, _, _ in m.sites}
+        polys.append("%d %s" % (M, " ".join("%s 2 0 %d 1 %d" % (val(ws[l]), i, i) for i, (l, o, s) in enumerate(idx))))
+    # non-linear diagonal: product of k number operators, k = 2..4 (must be rejected since the fix)
     if r.chance(1, 2) and M >= 2:
-        polys.append("1 %s 4 0 0 1 0 0 1 1 1" % val(1.0))
+        k = min(M, r.choice([2, 2, 3, 3, 4]))
+        modes = list(range(M))
+        r.shuffle(modes)
+        mm = sorted(modes[:k])
+        polys.append("1 %s %d %s %s" % (val(1.0), 2 * k, " ".join("0 %d" % i for i in mm), " ".join("1 %d" % i for i in reversed(mm))))
     if r.chance(1, 3) and M >= 2:
         polys.append("2 %s 2 0 0 1 1 %s 2 0 1 1 0" % (val(1.0), val(1.0)))
     if not polys:
@@ -228,11 +254,14 @@ def custom_integrals(r, m):
     return "symm custom %d %s" % (len(polys), " ".join(polys))
 
 
-def core_script(m, order=0, symm="default", dump=True):
+def core_script(m, order=0, symm="default", dump=True, shift=None):
     lines = list(m.build)
     if dump:
         lines.append("dumplattice")
-    lines += ["index %d" % order, "ham", symm if symm.startswith("symm") else "symm " + symm, "states", "hprepare", "hcompute"]
+    lines += ["index %d" % order, "ham"]
+    if shift is not None:
+        lines.append("hshift %s" % val(shift))      # constant energy offset
+    lines += [symm if symm.startswith("symm") else "symm " + symm, "states", "hprepare", "hcompute"]
     return lines
 
 
@@ -402,14 +431,24 @@ def replay(ctx, rp):
 
 def numeric_campaign(ctx, props, want, n_quick, n_thorough, max_modes_quick=4, max_modes_thorough=5, trunc=False,
                      symm_modes=("default", "default", "ignore", "custom"), allow=None, betas=(0.5, 1.0, 2.0, 5.0, 10.0),
-                     variants_thorough=("real", "complex"), nontrivial=None, extra=None, ngf=6, nchi=2, nsusc=2):
+                     variants_thorough=("real", "complex"), nontrivial=None, extra=None, ngf=6, nchi=2, nsusc=2, near=0, shifts=(5.0, -3.0, 0.625, 40.0)):
     r = ctx.rng
     thorough = ctx.tier == "thorough"
     n = n_thorough if thorough else n_quick
-    variants = variants_thorough if thorough else ("real",)
+    variants = variants_thorough       # both builds in both tiers (the complex build gets a share of the cases)
+    # minimised past failures first (corpus/<property>/*.txt)
+    for pid in props[:1]:
+        cdir = os.path.join(pmlib.VERIF, "corpus", pid)
+        if os.path.isdir(cdir):
+            cs = []
+            for fn in sorted(os.listdir(cdir)):
+                with open(os.path.join(cdir, fn)) as f:
+                    cs.append([l.rstrip("\n") for l in f if l.strip() and not l.startswith("#")])
+            collect(ctx, run_batch(cs, "real"), props)
+            ctx.count("corpus_cases", len(cs))
     for variant in variants:
         scripts, metas = [], []
-        for k in range(n if variant == "real" else max(4, n // 3)):
+        for k in range(n if variant == "real" else (max(4, n // 3) if thorough else max(4, n // 5))):
             mm = r.choice(list(range(2, (max_modes_thorough if thorough else max_modes_quick) + 1)))
             kw = {}
             if allow:
@@ -420,7 +459,10 @@ def numeric_campaign(ctx, props, want, n_quick, n_thorough, max_modes_quick=4, m
             symm_line = custom_integrals(r, m) if symm == "custom" else symm
             beta = r.choice(list(betas))
             order = r.below(2)
-            s = core_script(m, order=order, symm=symm_line)
+            shift = r.choice(list(shifts)) if shifts and r.chance(1, 3) else None
+            s = core_script(m, order=order, symm=symm_line, shift=shift)
+            if shift is not None:
+                m.kinds.add("energy_offset")
             s += observables_script(r, m, beta, M, want=want, ngf=ngf, nchi=(nchi if M <= 3 else 1), nsusc=nsusc,
                                     ntriples=(4 if M <= 3 else 2))
             if trunc:
@@ -429,6 +471,13 @@ def numeric_campaign(ctx, props, want, n_quick, n_thorough, max_modes_quick=4, m
                 s += [l for l in s if l.split()[0] in ("gf", "susc", "chi")][:6]
             if extra:
                 s = extra(r, m, s)
+            if near and k % near == near - 1:
+                # near-degenerate stream: lift an exact degeneracy by a tiny level shift on one site
+                dl = r.choice([1e-10, 1e-9, 3e-9, 3e-8, 1e-7, 1e-6, 1e-5, 1e-4])
+                site = r.choice(m.sites)
+                at = s.index("dumplattice") if "dumplattice" in s else len(m.build)
+                s = s[:at] + ["preset level %s %s" % (lab(site[0]), val(dl * r.choice([1, -1])))] + s[at:]
+                m.kinds.add("near_degenerate")
             scripts.append(s)
             metas.append(dict(modes=M, sites=len(m.sites), symm=symm, beta=beta, order=order, kinds=sorted(m.kinds),
                               quadratic=m.quadratic, variant=variant))
